@@ -245,7 +245,9 @@ Definition dec_bcase (c : sx) : option (Z * Z * bool * list brule * facts * list
 Definition run_sx (c : sx) : sx :=
   match dec_bcase c with
   | Some (strategy, md, det, rs, f, ops) =>
-      if (strategy =? 1) || negb det then L [A (-998)]
+      (* a single query's verdict never depends on the candidate order: the root candidates are tried from the same
+         facts and the first success wins; in a history the facts handed back do depend on it *)
+      if (strategy =? 1) || negb (det || (Nat.leb (length ops) 1)) then L [A (-998)]
       else L [L (run_ops rs strategy md {| memo := [] |} f ops); L [A (-997)]]
   | None => sx_bad end.
 
@@ -273,7 +275,7 @@ Fixpoint ok_ops (unch : bool) (rules : list brule) (strategy max_depth : Z) (det
           let provable := negb (p =? 0) in
           let sound := negb provable || (goal_holds fa g && goal_in_closure rules fb g) in
           let complete := negb ((strategy =? 0) && conjunctive rules && monotone rules fb && goal_holds (level (Z.to_nat max_depth) rules fb) g) || provable in
-          let fresh := if (strategy =? 1) || negb det then true
+          let fresh := if strategy =? 1 then true
                        else Bool.eqb provable (fst (if strategy =? 0 then dfs rules max_depth g fb else ids rules max_depth g fb)) in
           (* C10: a query reported not provable leaves the caller's facts exactly as they were *)
           let unchanged := negb unch || provable || sx_eqb (enc_facts fb) (enc_facts fa) in
